@@ -80,11 +80,17 @@ def _one(args):
     with open(os.path.join(wd, "MC_%s.tla" % name), "w") as f:
         f.write(mc)
     cfg = "CONSTANTS\n Fixed = TRUE\n Configs <- MCConfigs\n MaxT = %d\n MaxSteps = 400\nINIT Init\nNEXT Next\n" % maxT
-    cfg += "".join("INVARIANT %s\n" % i for i in F_INVS) + "CHECK_DEADLOCK FALSE\n"
+    cfg += "".join("INVARIANT %s\n" % i for i in F_INVS) + "INVARIANT ReportOutcome\nCHECK_DEADLOCK FALSE\n"
     r = tlc.run_tlc("MC_%s" % name, cfg, workers=8, timeout=1500, workdir=wd)
     out = r.as_dict()
     out["name"] = name
     out["configs"] = len(cfgs)
+    import re
+    outcomes = {}
+    flat = re.sub(r"\s+", "", r.stdout)
+    for cid, seq in re.findall(r'<<"F",(\d+),<<([0-9,]*)>>>>', flat):
+        outcomes.setdefault(cfgs[int(cid) - 1]["name"], set()).add(seq)
+    out["outcomes"] = {k: sorted(v) for k, v in outcomes.items()}
     if r.violations or r.errors or not r.completed:
         out["cex"] = tlc.counterexample(r.stdout)[-4:]
         out["tail"] = r.stdout[-1500:]
@@ -95,6 +101,10 @@ def _one(args):
 
 def model_configs(tier):
     C = [c for c in factory_cfg.families(tier) if supported(c)]
+    if tier == "quick":
+        # two sources + multi-worker machine + fleet + machine: ~70 000 states per configuration over all interleavings;
+        # kept for the thorough tier
+        C = [c for c in C if not c["family"].startswith("2S-B-M-F-M-B-K")]
     if tier != "quick":
         import random
         rng = random.Random("factory-model")
@@ -119,5 +129,53 @@ def leg_a(tier):
     with mp.Pool(3) as pool:
         outs = pool.map(_one, [("b%02d" % i, b, 60) for i, b in enumerate(batches) if b])
     res = {o["name"]: o for o in outs}
+    common.save_json(p, res)
+    return res
+
+
+MAXT = 60
+
+
+def conformance(tier):
+    """Leg B for factories: run every model configuration on the REAL classes to the model's horizon and check that the
+    observed outcome (counters of every node, items in every edge) is one of the outcomes TLC found for the design.
+    A mismatch is DRIFT (reported in the evidence), not a verdict."""
+    la = leg_a(tier)
+    p = os.path.join(common.cache_dir("factory_conf"), "%s-%s-%s-%s.json" % (tier, common.spec_hash(), common.harness_hash(), common.src_hash()))
+    res = common.load_json(p)
+    if res is not None:
+        return res
+    os.environ["FACTORYSIMPY_VERIF"] = "1"
+    from . import factory_driver
+    allowed = {}
+    for r in la.values():
+        allowed.update(r.get("outcomes", {}))
+    C = model_configs(tier)
+    checked = matched = 0
+    drift = []
+    for c in C:
+        if c["name"] not in allowed:
+            continue
+        c2 = dict(c, T=MAXT + 0.5)
+        tr = factory_driver.run_config(c2)
+        if tr["outcome"] != "ok":
+            drift.append({"config": c["name"], "family": c["family"], "real": tr["outcome"] + " " + tr.get("err", ""), "model": allowed[c["name"]][:3]})
+            checked += 1
+            continue
+        fin = tr["ev"][-1]
+        eoi = [e for e in tr["ev"] if e["k"] == "eoi"][-1]
+        flat = []
+        for n in fin["nodes"]:
+            flat += [n["gen"], n["disc"], n["proc"], n["recv"]]
+        for e in eoi["edges"]:
+            flat.append(len(e["tr"]) + len(e["rd"]))
+        key = ",".join(str(x) for x in flat)
+        checked += 1
+        if key in allowed[c["name"]]:
+            matched += 1
+        else:
+            drift.append({"config": c["name"], "family": c["family"], "real": key, "model": allowed[c["name"]][:3]})
+    res = {"checked": checked, "matched": matched, "drift": drift[:10], "ndrift": len(drift),
+           "model_outcome_sets": {"total": len(allowed), "with_more_than_one_outcome": sum(1 for v in allowed.values() if len(v) > 1)}}
     common.save_json(p, res)
     return res
